@@ -137,7 +137,9 @@ def correspondence(ctx, model_ok, tmp):
         for step in range(n_steps):
             c = None
             # pick the operation kind by weight among those that make sense now, then map it onto the thresholds below
-            kinds = [("regcoll", 0.07, 5), ("regtype", 0.18, 3), ("insert", 0.3, 16), ("multi", 0.985, 6)]
+            kinds = [("regcoll", 0.07, 5), ("regtype", 0.18, 3), ("insert", 0.3, 16), ("multi", 0.985, 6), ("dupinsert", 0.9755, 3)]
+            if refs:
+                kinds.append(("purge", 0.9655, 4))
             if refs:
                 kinds += [("import", 0.47, 6), ("assoc", 0.6, 20), ("disassoc", 0.7, 12), ("rmds", 0.8, 6)]
             kinds += [("rmcoll", 0.87, 4), ("chain", 0.93, 4)]
@@ -353,6 +355,65 @@ def correspondence(ctx, model_ok, tmp):
                     out = "err CollectionTypeError"  # unknown parent: the model has one "not a chain" refusal
                 except Exception as e:
                     out = classify(e)
+            elif 0.975 < r < 0.976:
+                # one insertDatasets call naming the same data ID twice (possibly next to a harmless one): the second would
+                # share dataset type, data ID and run with the first, so the whole call must be refused and change nothing
+                runs_ = [c_ for c_, k_ in o_colls.items() if k_ == "R"]
+                dim_types = [t_ for t_, d_ in o_types.items() if d_ == 0]
+                if not runs_ or not dim_types:
+                    continue
+                c, t = rng.choice(runs_), rng.choice(dim_types)
+                taken = {(ty, kk) for ty, kk, rr in o_ds.values() if rr == c}
+                free = [k_ for k_ in (1, 2, 3, 11, 12, 13) if (t, k_) not in taken]
+                if not free:
+                    continue
+                k = rng.choice(free)
+                ks = [k, k] + ([rng.choice(free)] if rng.random() < 0.5 else [])
+                rng.shuffle(ks)
+                want = "err ConflictingDefinitionError"
+                try:
+                    got_refs = reg.insertDatasets(tname(t), [data_id(t, k_) for k_ in ks], run=cname(c))
+                    out = f"ok ({len(got_refs)} refs for {len(ks)} data IDs)"
+                except Exception as e:
+                    out = classify(e)
+                ops.append(f"dupinsert {t} {ks} {c}")
+                ctx.count("dupinsert")
+                if out != want:
+                    viol(f"history {ops[-4:]}: insertDatasets(type {t}, data IDs {ks}, run {c}) names one data ID twice -> {out}, documented outcome {want}",
+                         f"dupinsert:{ops}", {"kind": "history", "ops": ops, "got": out, "want": want})
+                line = None  # nothing changed: the model is not told; the probes below compare with the unchanged state
+            elif 0.965 < r < 0.966 and refs:
+                # Butler.pruneDatasets(purge=True) — the refs handed over as a list, a tuple or a one-shot generator: the same
+                # as unstore + removeDatasets of exactly those datasets
+                live = [i for i in sorted(refs) if i in o_ds]
+                if not live:
+                    continue
+                ids = rng.sample(live, min(len(live), rng.choice([1, 1, 2, 3])))
+                how = rng.choice(["list", "tuple", "generator", "generator"])
+                arg = [refs[i] for i in ids]
+                arg = tuple(arg) if how == "tuple" else ((x for x in list(arg)) if how == "generator" else arg)
+                try:
+                    b.pruneDatasets(arg, purge=True, unstore=True, disassociate=True)
+                    out = "ok"
+                except Exception as e:
+                    out = classify(e)
+                ctx.count("purge:" + how)
+                ops.append(f"purge[{how}] " + ",".join(map(str, ids)))
+                if out != "ok":
+                    viol(f"history {ops[-4:]}: pruneDatasets({ids} as {how}, purge, unstore, disassociate) -> {out}", f"purge:{ops}",
+                         {"kind": "history", "ops": ops, "got": out})
+                    continue
+                # tell the model the same thing as unstore + rmds
+                for i in ids:
+                    if i in o_stored:
+                        req.append(f"reg unstore {i}"), impl.append("ok")
+                        o_stored.discard(i)
+                req.append("reg rmds " + ",".join(map(str, ids))), impl.append("ok")
+                for i in ids:
+                    o_ds.pop(i, None)
+                    for s_ in o_tag.values():
+                        s_.discard(i)
+                line, want = None, None
             elif r > 0.98:
                 # one call that creates several datasets at once: insertDatasets over data IDs of two instruments, or
                 # _importDatasets of new datasets of two dataset types — only with free slots in an existing RUN, so that
